@@ -46,7 +46,7 @@ class QuaHoldList(HoldList[QuaHold], QuaNoteList[QuaHold]):
         df["EndTime"] = df["offset"] + df["length"]
         df = df.drop("length", axis=1)
         df.column += 1
-        return (
+        return self._drop_missing(
             df.astype(dict(offset=int, column=int, EndTime=int))
             .rename(
                 dict(offset="StartTime", column="Lane", keysounds="KeySounds"), axis=1
